@@ -146,6 +146,7 @@ def plan(rng, idx, tier):
         'repeat_file': (srng.randrange(3) if (nfiles >= 1 and srng.chance(0.15)) else None),
         'file_perm': (rng.sub('perm').sample(list(range(nfiles)), nfiles) if nfiles >= 2 and rng.sub('perm?').chance(0.5)
                       else None),
+        'glob_names': (1 + rng.sub('glob').randrange(3)) if (nfiles >= 1 and idx % 300 != 11 and rng.sub('glob?').chance(0.08)) else 0,
         'subprocess': (idx % 300 == 11),
         'pipeline': (idx % 25 == 3),
         'pipe': {'capacity': rng.sub('pipe').pick([1, 2, 7, 16, 64]), 'sched_seed': rng.sub('pipe2').randrange(1 << 30),
@@ -205,6 +206,14 @@ def _ConstRandom(value=0.5):
     return simrandom.Stream({'mode': 'constant'})
 
 
+def _file_name(trace):
+    """File names are plain, or contain characters that mean something to glob / the shell but are ordinary in a
+    file name: in[0].penman, in?1.penman ..."""
+    if trace.get('glob_names'):
+        return lambda i: ['/sim/in[{}].penman', '/sim/in{}[x].penman', '/sim/i[m-o]{}.penman'][trace['glob_names'] % 3].format(i)
+    return lambda i: f'/sim/in{i}.penman'
+
+
 def _restore_prng(pmodel, old):
     if old is None:
         try:
@@ -236,8 +245,8 @@ def run_tool(spec, opts, stdin, texts, trace, k, res, tag):
     if stdin:
         stdin_bytes = texts[0].encode('utf-8')
         if opts.get('encoding'):
-            # --encoding concerns FILE arguments; given together with stdin it must change nothing
-            argv += ['--encoding', 'utf-8']
+            # --encoding concerns FILE arguments; given together with stdin it must change nothing, whatever it names
+            argv += ['--encoding', opts['encoding'] if trace.get('mixseed', 0) % 2 else 'utf-8']
             res.hit('probe.encoding_option')
     else:
         enc = opts.get('encoding') or 'utf-8'
@@ -249,11 +258,15 @@ def run_tool(spec, opts, stdin, texts, trace, k, res, tag):
         if opts.get('encoding'):
             argv += ['--encoding', enc]
             res.hit('probe.encoding_option')
+        name = _file_name(trace)
         for i, t in enumerate(texts):
-            files[f'/sim/in{i}.penman'] = t.encode(enc)
-            plans[f'/sim/in{i}.penman'] = trace.get('read_plan')
-        argv += [f'/sim/in{i}.penman' for i in file_order(trace, len(texts))] if tag == 'tool' or tag == 'tool-format2' \
-            else [f'/sim/in{i}.penman' for i in range(len(texts))]
+            files[name(i)] = t.encode(enc)
+            plans[name(i)] = trace.get('read_plan')
+            if trace.get('glob_names'):
+                # a sibling that the odd name matches *as a pattern*; it must never be read
+                files[f'/sim/in{i}.penman'] = '(decoy / never-read :file {})\n'.format(i).encode(enc)
+        argv += [name(i) for i in file_order(trace, len(texts))] if tag == 'tool' or tag == 'tool-format2' \
+            else [name(i) for i in range(len(texts))]
     import penman.model as pmodel
     rnd = _ConstRandom() if uses_random(opts) else None
     old_random = getattr(pmodel, 'random', None)
@@ -340,7 +353,8 @@ def execute(trace):
     elif r.stdout_error is not None:
         res.violate('pipeline', 'stdout-error', error=digest.canon_exc(r.stdout_error), **detail)
     else:
-        ok = compare_with_pipeline(r, expected, opts, res, detail, out_detail, ngraphs=_ngraphs(trace, stdin, texts))
+        ok = compare_with_pipeline(r, expected, opts, res, detail, out_detail, ngraphs=_ngraphs(trace, stdin, texts),
+                                   single_source=bool(stdin or len(file_order(trace, len(texts))) == 1))
         if r.exit != 0:
             res.violate('exit', 'nonzero-without-check', got=r.exit, **detail, **out_detail(r))
 
@@ -519,7 +533,7 @@ def _content(g):
             'metadata': [[a, b] for a, b in g.metadata.items()]}
 
 
-def compare_with_pipeline(r, expected, opts, res, detail, out_detail, ngraphs=None):
+def compare_with_pipeline(r, expected, opts, res, detail, out_detail, ngraphs=None, single_source=False):
     want = [s for s, _ in expected]
     if opts.get('triples'):
         got = splitter.tokens(r.stdout)
@@ -546,6 +560,14 @@ def compare_with_pipeline(r, expected, opts, res, detail, out_detail, ngraphs=No
         if (i == 0 and s != '') or (i > 0 and ('\n' not in s or s.strip(' \t\r\n') != '')):
             res.violate('pipeline', 'bad-separator', index=i, separator=s, **detail, **out_detail(r))
             return False
+    if single_source and len(set(seps[1:])) > 1:
+        # the graphs of one input are written one after the other in the same way: a separator that changes in the
+        # middle of a stream (every n-th graph, after a flush) is not "one output graph per input graph, in order"
+        # written by one rule.  Across *files* the pinned tool already differs (known finding F16), hence one input
+        odd = [i for i, s_ in enumerate(seps) if i > 0 and s_ != seps[1]]
+        res.violate('pipeline', 'non-uniform-separators-within-one-input', first=seps[1], other=seps[odd[0]],
+                    at_graph=odd[0], graphs=len(blocks), **detail)
+        return False
     if want and tail != '\n':
         res.violate('pipeline', 'bad-tail', tail=tail, **detail, **out_detail(r))
         return False
